@@ -617,6 +617,10 @@ func (c *VirtualTable) Update(ctx context.Context, key interface{}, values map[i
 	if !ok || old.Deleted {
 		return nil
 	}
+	// An UPDATE assigns columns; it is not an INSERT. It must leave the time
+	// at which the row was last inserted (or deleted) alone, or it would win
+	// over a DELETE that carries a write time between the two.
+	new.DeleteUpdateOffset = durationpb.New(ot.Add(old.DeleteUpdateOffset.AsDuration()).Sub(t))
 	new.ColumnValues = make(map[string]*v1proto.ColumnValue)
 	for i, v := range values {
 		if i == c.KeyCol {
